@@ -134,21 +134,17 @@ Proof.
   eapply Ha; eauto.
 Qed.
 
-Lemma J_step : forall l w g,
-  is_shared l = true -> bad_F11b l w g = false ->
-  J w -> J (step l w g).
+(* one call, whatever decides that the output directory exists *)
+Lemma J_step_with : forall l ex w g,
+  is_shared l = true ->
+  J w -> J (fst (step_out_with l ex w g)).
 Proof.
-  intros l w g Hs Hb [Hr Ha Hn Hcl]. unfold step, step_out.
-  unfold bad_F11b in Hb.
-  destruct (negb (g_force g) && dir_exists l w (g_client g)) eqn:Ediff.
+  intros l ex w g Hs [Hr Ha Hn Hcl]. unfold step_out_with.
+  destruct (negb (g_force g) && ex) eqn:Ediff.
   - (* diff path: nothing changes *)
     simpl. constructor; auto.
   - (* direct path *)
-    assert (Hw : dir_exists l w (g_client g) && inside l (g_client g) = false).
-    { destruct (dir_exists l w (g_client g)) eqn:Ed; simpl; [|reflexivity].
-      destruct (inside l (g_client g)) eqn:Ei; [|reflexivity].
-      rewrite andb_true_r in Ediff. simpl in Hb. apply negb_false_iff in Ediff. congruence. }
-    rewrite Hw, Hs. cbn [fst]. constructor; cbn [registry aliases clients claimed reg_or_empty aliases_of].
+    rewrite Hs. cbn [fst]. constructor; cbn [registry aliases clients claimed reg_or_empty aliases_of].
     + intros c cs Hl. destruct (str_eqb c (g_client g)) eqn:E.
       * apply str_eqb_eq in E. subst c. rewrite alookup_aset_same in Hl. inversion Hl; subst.
         exists (errs_of g). split; [apply alookup_aset_same | apply imports_in_errs].
@@ -163,40 +159,25 @@ Proof.
       * rewrite (Hcl c Hin). apply orb_true_r.
 Qed.
 
-Lemma J_run_from : forall l h w,
-  is_shared l = true -> never bad_F11b l w h = true ->
-  J w -> J (fold_left (step l) h w).
+Lemma J_step : forall l w g, is_shared l = true -> J w -> J (step l w g).
+Proof. intros l w g Hs HJ. unfold step, step_out. apply J_step_with; assumption. Qed.
+
+Lemma J_run_from : forall l h w, is_shared l = true -> J w -> J (fold_left (step l) h w).
 Proof.
-  intros l h. induction h as [|g h IH]; intros w Hs Hb HJ; simpl in *.
-  - exact HJ.
-  - apply andb_true_iff in Hb. destruct Hb as [Hb1 Hb2].
-    apply negb_true_iff in Hb1.
-    apply IH; auto. apply J_step; auto.
+  intros l h. induction h as [|g h IH]; intros w Hs HJ; simpl in *; [exact HJ|].
+  apply IH; auto. apply J_step; auto.
 Qed.
 
-(* main theorem: for every layout and every history that meets the executable guard *)
+(* MAIN THEOREM: for every well-formed layout and EVERY history *)
+Theorem works_always : forall l h, wf_layout l = true -> Works (run l h).
+Proof.
+  intros l h Hs. apply J_Works. unfold run. apply J_run_from; [exact Hs | apply J_init].
+Qed.
+
 Theorem works_under_guard : forall l h, guard l h = true -> Works (run l h).
-Proof.
-  intros l h Hg. unfold guard, wf_layout, guard_F11b in Hg.
-  apply andb_true_iff in Hg. destruct Hg as [Hs Hb].
-  apply J_Works. unfold run. apply J_run_from; auto. apply J_init.
-Qed.
+Proof. intros l h Hg. apply works_always. exact Hg. Qed.
 
-(* the static form asked for in the design: a core that lives in no client's directory *)
-Lemma never_b_outside : forall l h w, core_inside_client l = None -> never bad_F11b l w h = true.
-Proof.
-  intros l h. induction h as [|g h IH]; intros w Hn; simpl; [reflexivity|].
-  rewrite IH by exact Hn. unfold bad_F11b, inside. rewrite Hn. reflexivity.
-Qed.
-
-Theorem works_shared_outside : forall l h,
-  is_shared l = true -> core_inside_client l = None -> Works (fold_left (step l) h init).
-Proof.
-  intros l h Hs Hn. apply (works_under_guard l h). unfold guard, wf_layout, guard_F11b.
-  rewrite Hs, never_b_outside by exact Hn. reflexivity.
-Qed.
-
-(* ---------- refutations ---------- *)
+(* ---------- regressions: the witnesses of the fixed findings ---------- *)
 Lemma works_b_sound : forall w, Works w -> works_b w = true.
 Proof.
   intros w [Hi Hc]. unfold works_b. apply andb_true_iff. split.
@@ -214,14 +195,11 @@ Proof.
   split; [vm_compute; reflexivity|]. split; [apply works_under_guard; vm_compute; reflexivity | vm_compute; reflexivity].
 Qed.
 
-Lemma refuted_F11b :
-  wf_layout l_in = true /\ guard_F11b l_in h_F11b = false
-  /\ ~ Inv (run l_in h_F11b).
+(* F11b fixed: core "c1.core": c1 (404), c2 (409), c1 regenerated with force: c2 keeps ConflictError *)
+Lemma fixed_F11b :
+  wf_layout l_in = true /\ Works (run l_in h_F11b) /\ aliases (run l_in h_F11b) = Some [404; 409].
 Proof.
-  repeat split; try (vm_compute; reflexivity).
-  intro H. assert (Hx : In 409 (aliases_of (run l_in h_F11b))).
-  { apply (H c2 [409]); vm_compute; auto. }
-  vm_compute in Hx. destruct Hx as [Hx|[]]. discriminate.
+  split; [vm_compute; reflexivity|]. split; [apply works_always; vm_compute; reflexivity | vm_compute; reflexivity].
 Qed.
 
 (* regression (F11c fixed by the stricter diff check): the non-force call over the directory that only
